@@ -155,6 +155,18 @@ Theorem C13_py_flat_formats_generated_tables : forall s sg args kw,
 Proof. exact gen_flat_formats. Qed.
 Print Assumptions C13_py_flat_formats_generated_tables.
 
+(* an accepted string never reports an argument with an empty type set: every reported position / name has a value of a
+   reported type, so the hypothesis args_match of C13_py_flat_formats can be met for every accepted string *)
+Theorem C13_py_types_inhabited : forall U M s sg key tp n,
+  pybrace_parse U M s = Ok sg -> In (key, (tp, n)) (argument_map sg) -> exists v, val_in v tp = true.
+Proof. exact types_inhabited. Qed.
+Print Assumptions C13_py_types_inhabited.
+
+Theorem C13_py_types_inhabited_generated_tables : forall s sg key tp n,
+  pybrace_parse_gen s = Ok sg -> In (key, (tp, n)) (argument_map sg) -> exists v, val_in v tp = true.
+Proof. exact gen_types_inhabited. Qed.
+Print Assumptions C13_py_types_inhabited_generated_tables.
+
 (* non-vacuity: "{²}" is a keyword field named "²" and "{٣}" is index 3, as for str.format; "{}{0}" is rejected (mixture);
    "{a} {:d} {!r:>5}" is accepted and formats *)
 Example C13_py_ex0 : pybrace_parse_gen [123; 178; 125] = Ok {| argument_map := [(KName [178], (t_all, 1%nat))] |} /\
